@@ -605,3 +605,110 @@ def subscriptions_rearmed(chk):
                           "ends the subscription and every later change goes unnoticed" % f.name, construct=ident,
                    text="subscription of %s not renewed" % f.name, path=cfg.fmt_path(w, f))
     chk.ob("REARM-0", "self-renewing subscriptions renew on every path (%d functions, %d subscriptions)" % (n, k), True, "mpf:1", nontrivial=False)
+
+
+# ----------------------------------------------------------------------------------------------------------- MEMO-0
+_POS_MEMO = """
+class A:
+    @lru_cache()
+    def lookup(self, name):
+        if name == "game" and self.machine.game:
+            return self.machine.game
+        return False
+
+@lru_cache(maxsize=8)
+def decode(text):
+    out = dict()
+    for p in text.split('&'):
+        out[p] = 1
+    return text, out
+"""
+
+# memoised functions of the tree, read and confirmed (their results are treated as read-only by every caller / the state they read is fixed
+# once the machine is configured)
+_MEMO_CONFIRMED = {
+    "mpf/core/utility_functions.py::Util.string_to_class": "imports a class by dotted name: pure",
+    "mpf/core/config_validator.py::ConfigValidator.build_spec": "config_spec is complete before the first validation; callers only read the merged spec",
+    "mpf/core/placeholder_manager.py::BasePlaceholderManager.parse_conditional_template": "typed cache; the dict is only read by config players",
+    "mpf/core/events.py::EventManager.get_event_and_condition_from_string": "returns a tuple of immutable parts and a template object that keeps no per-use state",
+}
+_MEMO_NAMES = ("lru_cache", "cache", "memoize", "memoized", "cached")
+
+
+def _memo_problems(fn_node):
+    """(node, why) for a memoised function: answers from changeable state, or hands out a mutable object built in its body."""
+    out = []
+    tests = []
+    for x in ast.walk(fn_node):
+        if isinstance(x, (ast.If, ast.While, ast.IfExp)):
+            tests.append(x.test)
+        elif isinstance(x, ast.Return) and x.value is not None:
+            tests.append(x.value)
+    seen = set()
+    for t in tests:
+        for y in ast.walk(t):
+            if isinstance(y, ast.Attribute) and isinstance(y.value, ast.Attribute):
+                root = y
+                while isinstance(root, ast.Attribute):
+                    root = root.value
+                if isinstance(root, ast.Name) and root.id == "self" and src(y) not in seen:
+                    # skip a chain that is only the receiver of a call (self.machine.x.method(...)) or an argument of a constructor call
+                    seen.add(src(y))
+                    out.append((y, "reads %s, which can change between two calls with the same arguments" % src(y)))
+    # drop chains that are receivers of calls or arguments handed to calls (object references, not state values)
+    handed = set()
+    for x in ast.walk(fn_node):
+        if isinstance(x, ast.Call):
+            if isinstance(x.func, ast.Attribute):
+                handed.add(id(x.func))
+                v = x.func.value
+                while isinstance(v, ast.Attribute):
+                    handed.add(id(v))
+                    v = v.value
+            for a in list(x.args) + [k.value for k in x.keywords]:
+                for y in ast.walk(a):
+                    handed.add(id(y))
+    out = [(y, w) for y, w in out if id(y) not in handed]
+    mut_locals = set()
+    for x in ast.walk(fn_node):
+        if isinstance(x, ast.Assign) and len(x.targets) == 1 and isinstance(x.targets[0], ast.Name):
+            v = x.value
+            if isinstance(v, (ast.Dict, ast.List, ast.Set, ast.DictComp, ast.ListComp, ast.SetComp)) or \
+                    (isinstance(v, ast.Call) and isinstance(v.func, ast.Name) and v.func.id in ("dict", "list", "set", "deque", "defaultdict")) or \
+                    (isinstance(v, ast.Call) and src(v.func) in ("json.loads",)):
+                mut_locals.add(x.targets[0].id)
+    for x in ast.walk(fn_node):
+        if isinstance(x, ast.Return) and x.value is not None:
+            parts = x.value.elts if isinstance(x.value, ast.Tuple) else [x.value]
+            for p_ in parts:
+                if isinstance(p_, (ast.Dict, ast.List, ast.Set, ast.DictComp, ast.ListComp, ast.SetComp)) or (isinstance(p_, ast.Name) and p_.id in mut_locals):
+                    out.append((x, "hands out the mutable %s it built: every caller gets, and may edit, the cached object" % src(p_)[:30]))
+    return out
+
+
+def memoised_functions(chk):
+    mod = ast.parse(_POS_MEMO)
+    p1 = mod.body[0].body[0]
+    p2 = mod.body[1]
+    if len(_memo_problems(p1)) < 1 or len(_memo_problems(p2)) != 1:
+        chk.pending_errors.append("MEMO-0 detector does not match its positive examples")
+    n = k = 0
+    for ident in sorted(_anchor_idents(chk)):
+        rel, qual = ident.split("::", 1)
+        f = chk.repo.try_func(rel, qual)
+        if f is None:
+            continue
+        n += 1
+        memo = [d for d in f.decorators() if d.split(".")[-1] in _MEMO_NAMES]
+        if not memo:
+            continue
+        k += 1
+        if ident in _MEMO_CONFIRMED:
+            chk.ob("MEMO-0", "memoised %s is a confirmed instance" % qual, True, f.where(), detail=_MEMO_CONFIRMED[ident], construct=ident,
+                   text="confirmed memoised function", nontrivial=False)
+            continue
+        probs = _memo_problems(f.node)
+        chk.ob("MEMO-0", "memoised %s neither answers from changeable state nor hands out a mutable object it built" % qual, not probs,
+               f.where(probs[0][0]) if probs else f.where(), detail="@%s: %s" % (memo[0], "; ".join(w for _, w in probs[:3])), construct=ident,
+               text="memoised " + f.name)
+    chk.ob("MEMO-0", "memoised functions examined (%d of %d functions)" % (k, n), True, "mpf:1", nontrivial=False)
